@@ -462,7 +462,17 @@ func (a *asset) generateTimelineEntries(repID string, wt wrapTimes, atoMS int) s
 		mediaTimescale: uint32(rep.MediaTimescale),
 	}
 
-	ato := atoMS * rep.MediaTimescale / 1000 // Negative for a negative availabilityTimeOffset
+	// toTicks converts whole milliseconds to media time, rounding down also for negative values.
+	// The availabilityTimeOffset (which may be negative) must be added before the conversion,
+	// since two truncated terms can end up one tick before a segment end that has been reached.
+	toTicks := func(ms int) int {
+		t := ms * rep.MediaTimescale
+		q := t / 1000
+		if t%1000 < 0 {
+			q--
+		}
+		return q
+	}
 	loopDur := rep.duration()
 
 	// The availabilityTimeOffset may reach into the next or previous loop(s), so normalize after adding it.
@@ -476,7 +486,7 @@ func (a *asset) generateTimelineEntries(repID string, wt wrapTimes, atoMS int) s
 		return uint64(relTime), wraps
 	}
 
-	relStartTime, startWraps := normalize(wt.startRelMS*rep.MediaTimescale/1000+ato, wt.startWraps)
+	relStartTime, startWraps := normalize(toTicks(wt.startRelMS+atoMS), wt.startWraps)
 	wt.startWraps = startWraps
 	relStartIdx := 0
 	if relStartTime < segs[0].EndTime {
@@ -494,7 +504,7 @@ func (a *asset) generateTimelineEntries(repID string, wt wrapTimes, atoMS int) s
 		wt.startWraps = 0
 	}
 
-	relNowTime, nowWraps := normalize(wt.nowRelMS*rep.MediaTimescale/1000+ato, wt.nowWraps)
+	relNowTime, nowWraps := normalize(toTicks(wt.nowRelMS+atoMS), wt.nowWraps)
 	wt.nowWraps = nowWraps
 	relNowIdx := 0
 	if relNowTime < segs[0].EndTime {
